@@ -80,6 +80,15 @@ def check_pair(sa, wa, sb, wb, gi):
         rb._signed = not rb._signed
     if snap(a) != a0 or snap(b) != b0:
         return "result aliases an argument"
+    # ... nor a later answer for the same pair of types (results are handed to IR nodes which change them in
+    # place, e.g. the negation of a constant): ask again with fresh, equal arguments
+    a3, b3 = ValueType(sa, wa, g), ValueType(sb, wb, g)
+    r3a, r3b = c11_cast(a3, b3)
+    if (r3a._signed, r3a._bit_width) != exp or (r3b._signed, r3b._bit_width) != exp:
+        return "history-dependent: after a caller changed an earlier result in place the same pair gives (%s, %s) instead of %s" % ((r3a._signed, r3a._bit_width), (r3b._signed, r3b._bit_width), exp)
+    if wa != wb or sa != sb:
+        if r3a is ra or r3b is rb or r3a is ra2 or r3b is rb2:
+            return "two calls return the same object (a caller that changes its result in place changes the other caller's type)"
     return None
 
 
@@ -99,6 +108,15 @@ def check_promoted(s, w, gi):
     r2 = promoted_type(t)
     if (r2._signed, r2._bit_width) != ref_promoted(s, w):
         return "second call differs"
+    # a changed result must not change the answer for an equal type later
+    if r is not t:
+        r._signed = not r._signed
+        r._bit_width += 1
+        r3 = promoted_type(ValueType(s, w, groups()[gi]))
+        if (r3._signed, r3._bit_width) != ref_promoted(s, w):
+            return "history-dependent: a result changed in place by a caller is returned again"
+        if snap(t) != t0:
+            return "result aliases the argument although its value differs"
     return None
 
 
